@@ -311,35 +311,10 @@ func (m *MW) StepCacheReplay() {
 	if m.T.Chance("cache.wait", 1, 3) {
 		m.rc.S.Sleep(time.Duration(1+m.T.Choose("cache.secs", 280)) * time.Second) // inside the 300 s TTL
 	}
-	// 1. byte-identical replay
-	seamsBefore := len(W.SeamLog)
-	lnBefore := len(W.LN.Calls)
-	var rep *Resp
-	m.rc.S.BeginEpisode()
-	m.rc.S.Run1(m.name("cache1"), W.Ext, func() {
-		rep = m.Atk.do("POST", mint, path, body, "application/json")
-	})
-	m.rc.S.Probe("c20_cache_replay")
-	if rep.Err == nil {
-		if rep.Status != 200 || !bytes.Equal(rep.Raw, first.Raw) {
-			W.Book.Violate("C20.cache_replay", "identical", "byte-identical replay of a successful %s within the TTL answered %d %s, original was %s", path, rep.Status, cut(string(rep.Raw), 80), cut(string(first.Raw), 80))
-		}
-		// calls made by the replay's own handler task (background watchers do not count)
-		nd, nl := 0, 0
-		pre := m.name("cache1") + "/h"
-		for _, c := range W.SeamLog[seamsBefore:] {
-			if strings.HasPrefix(c.Task, pre) {
-				nd++
-			}
-		}
-		for _, c := range W.LN.Calls[lnBefore:] {
-			if strings.HasPrefix(c.Task, pre) {
-				nl++
-			}
-		}
-		if nd+nl > 0 {
-			W.Book.Violate("C20.cache_executed", "identical", "byte-identical replay of %s caused %d storage and %d Lightning calls", path, nd, nl)
-		}
+	// 1. byte-identical replays: one to three of them (a client retries until it gets through)
+	nrep := 1 + m.T.Choose("cache.nrep", 3)
+	for k := 1; k <= nrep; k++ {
+		m.cacheReplayOnce(mint, path, body, first, k)
 	}
 	// 2. near-replays: must be executed on their merits (and, the operation being done already, refused)
 	type near struct {
@@ -482,6 +457,50 @@ func (m *MW) StepInjectedFailure() {
 	if r != nil && r.Err == nil && r.Status == 400 {
 		m.rc.S.Probe("c20_injected_failure_reported")
 		m.rc.Nontrivial = true
+	}
+}
+
+// cacheReplayOnce sends the k-th byte-identical replay of a successful request and checks that the
+// response is the original one and that the handler touched neither storage nor Lightning.
+func (m *MW) cacheReplayOnce(mint, path string, body []byte, first *Resp, k int) {
+	W := m.W
+	task := fmt.Sprintf("%s.%d", m.name("cache1"), k)
+	seamsBefore := len(W.SeamLog)
+	lnBefore := len(W.LN.Calls)
+	var rep *Resp
+	m.rc.S.BeginEpisode()
+	m.rc.S.Run1(task, W.Ext, func() {
+		rep = m.Atk.do("POST", mint, path, body, "application/json")
+	})
+	m.rc.S.Probe("c20_cache_replay")
+	if k > 1 {
+		m.rc.S.Probe("c20_cache_replay_repeated")
+	}
+	if rep.Err != nil {
+		return
+	}
+	fp := "identical"
+	if k > 1 {
+		fp = "identical-repeated"
+	}
+	if rep.Status != 200 || !bytes.Equal(rep.Raw, first.Raw) {
+		W.Book.Violate("C20.cache_replay", fp, "byte-identical replay #%d of a successful %s within the TTL answered %d %s, original was %s", k, path, rep.Status, cut(string(rep.Raw), 80), cut(string(first.Raw), 80))
+	}
+	// calls made by the replay's own handler task (background watchers do not count)
+	nd, nl := 0, 0
+	pre := task + "/h"
+	for _, c := range W.SeamLog[seamsBefore:] {
+		if strings.HasPrefix(c.Task, pre) {
+			nd++
+		}
+	}
+	for _, c := range W.LN.Calls[lnBefore:] {
+		if strings.HasPrefix(c.Task, pre) {
+			nl++
+		}
+	}
+	if nd+nl > 0 {
+		W.Book.Violate("C20.cache_executed", fp, "byte-identical replay #%d of %s caused %d storage and %d Lightning calls", k, path, nd, nl)
 	}
 }
 
